@@ -346,6 +346,25 @@ def _f_geo():
     return {"lat": lat, "lon": lon, "time_seq": tseq, "adjacency": A, "space_seq": sp}
 
 
+def _f_geogrid():
+    """Queries of GeoGrid / Grid that take caller arrays: a polygon, a longitude sequence, rectangular axes."""
+    from pyunicorn.core import GeoGrid, Grid
+    lat, lon = V(np.array([0., 5., 10., 5., -5., 0.])), V(np.array([10., 350., 20., 355., 5., 180.]))
+    tseq = V(np.arange(3.))
+    g = GeoGrid(tseq, lat, lon, silence_level=3)
+    # a region given in the -180..180 convention on a grid that uses 0..360
+    region = V(np.array([-12., -1., -12., 12., 30., 12., 30., -1.]))
+    lon360 = V(np.array([10., 350., 20., 340., 170., 190.]))
+    g.region_indices(region), g.region_indices(region)
+    g.convert_lon_coordinates(lon360)
+    g.node_number(4.0, 352.0), g.boundaries(), g.grid()
+    ax1, ax2 = V(np.array([0., 5., 10.])), V(np.array([1., 2.]))
+    GeoGrid.RegularGrid(tseq, (ax1, ax2), silence_level=3).lat_sequence()
+    Grid.RegularGrid(tseq, [ax1, ax2], silence_level=3).sequence(1)
+    GeoGrid.coord_sequence_from_rect_grid(ax1, ax2), Grid.coord_sequence_from_rect_grid([ax1, ax2])
+    return {"lat": lat, "lon": lon, "time_seq": tseq, "region": region, "lon_seq": lon360, "axis1": ax1, "axis2": ax2}
+
+
 def _f_interacting():
     from pyunicorn.core import InteractingNetworks
     A = V(families.ADJ[False][1])
@@ -401,7 +420,7 @@ def _f_data_views():
 
 FUNCS = {"data_views": _f_data_views, "rejection_sampling": _f_rejection, "embed": _f_embed, "rp_metrics": _f_rp_metrics,
          "coupling": _f_coupling, "eventseries": _f_eventseries,
-         "visibility_inputs": _f_visibility, "geo": _f_geo, "interacting_inputs": _f_interacting,
+         "visibility_inputs": _f_visibility, "geo": _f_geo, "geogrid": _f_geogrid, "interacting_inputs": _f_interacting,
          "network_ops": _f_network_ops}
 
 
